@@ -52,11 +52,16 @@ SPEC = {
     "id": "C17",
     "level": "proof",
     "props": ["props/C17.vo"],
-    "tie": ["props/C17_tieA.vo"],
-    "gen_items": ["src/**:pub fn table"],
+    # (b) "every safe counterpart validates its arguments": the checked entry points and the transformers behind them are the ones the
+    # model describes (transfer lemmas over today's source)
+    "tie": ["props/C17_tieA.vo", "tie/StrEquiv.vo", "tie/EditEquiv.vo", "tie/HandleEquiv.vo", "tie/ReprEquiv.vo", "props/C10_tieA.vo"],
+    "gen_items": ["src/**:pub fn table", "src/bytes.rs + src/string.rs:try_slice / slice / truncate (checked entry points)",
+                  "src/bytes.rs:truncate pop shrink_to push_slice push clear repeat with_capacity as_mut_* to_mut_slice; raw.rs:make_unique take_vec; allocated.rs:shrink_to as_mut_*",
+                  "src/bytes/raw/allocated.rs:slice_unchecked + explicit_clone", "src/bytes/raw.rs:range_unchecked + from_slice + normalized_from_vec", "src/bytes.rs:concat / join structure"],
     "tieA_required": True,
-    "drivers": [{"driver": "adversary", "profiles": ["debug", "release"]}, {"driver": "codec", "profiles": ["debug"]}],
-    "case_libs": ["theories/CasesCodec.vo"],
+    "drivers": [{"driver": "adversary", "profiles": ["debug", "release"]}, {"driver": "codec", "profiles": ["debug"]},
+                {"driver": "concat", "profiles": ["release"]}, {"driver": "bytes", "profiles": ["release"], "args": ["str", "focus=utf8"]}],
+    "case_libs": ["theories/CasesCodec.vo", "theories/CasesConcat.vo", "theories/CasesBytes.vo"],
     "custom": compile_corpus,
     "exhaustive": True,
     "rule": ("(a) every `pub fn` of /repo/src (test modules excluded) with its `unsafe` qualifier, `# Safety` doc section and `_unchecked` suffix, re-read on every run (complete enumeration of a "
